@@ -1,16 +1,25 @@
 // vx: conformance harness of the extension module X-validate-xpath (when / must / leafref part
-// of data validation and the XPath adapter over data trees).
+// of data validation, schema/validate.go, and the XPath adapter over data trees,
+// schema/xpath_adapter.go).  Expectations come from TLC (spec/ValidateXPath*.tla).
 //
-//	vx probe-yang file.yang '<data json>' [all|none|state|config|func]   try one input by hand
+//	vx replay -out res.ndjson vxs_1.ndjson vxv_1.ndjson ...    validator: model -> code
+//	vx adapter -out res.ndjson vxs_1.ndjson vxa_1.ndjson ...   adapter view: model -> code
+//	vx xnode -out res.ndjson vxs_1.ndjson ...                  schema walker XNode (node_xpath.go)
+//	vx yang vxs_1.ndjson                                       print the rendered YANG
+//	vx probe vxs_1.ndjson '<data json>' [all|none|state|config|func]   try one input by hand
+//	vx probe-yang file.yang '<data json>' [all|none|state|config|func]
 package main
 
 import (
+	"bufio"
 	"encoding/json"
+	"flag"
 	"fmt"
 	"os"
 
 	"github.com/sdcio/yang-parser/compile"
 	"github.com/sdcio/yang-parser/parse"
+	"github.com/sdcio/yang-parser/schema"
 
 	"verif/harness/internal/vxm"
 )
@@ -22,14 +31,229 @@ func die(f string, a ...interface{}) {
 
 func main() {
 	if len(os.Args) < 2 {
-		die("usage: vx probe-yang ...")
+		die("usage: vx replay|adapter|xnode|yang|probe|probe-yang ...")
 	}
 	switch os.Args[1] {
+	case "replay":
+		replay(os.Args[2:])
+	case "adapter":
+		adapter(os.Args[2:])
+	case "xnode":
+		xnode(os.Args[2:])
+	case "yang":
+		for _, sh := range readShapes(os.Args[2]) {
+			fmt.Println(vxm.RenderYang(sh))
+		}
+	case "probe":
+		probe(os.Args[2:])
 	case "probe-yang":
 		probeYang(os.Args[2:])
 	default:
 		die("unknown command %s", os.Args[1])
 	}
+}
+
+func eachLine(path string, f func([]byte)) {
+	fh, err := os.Open(path)
+	if err != nil {
+		die("%v", err)
+	}
+	defer fh.Close()
+	sc := bufio.NewScanner(fh)
+	sc.Buffer(make([]byte, 1<<26), 1<<26)
+	for sc.Scan() {
+		if len(sc.Bytes()) > 0 {
+			f(sc.Bytes())
+		}
+	}
+	if err := sc.Err(); err != nil {
+		die("%s: %v", path, err)
+	}
+}
+
+func readShapes(path string) []vxm.Shape {
+	out := []vxm.Shape{}
+	eachLine(path, func(b []byte) {
+		var sh vxm.Shape
+		if err := json.Unmarshal(b, &sh); err != nil {
+			die("%s: %v", path, err)
+		}
+		out = append(out, sh)
+	})
+	return out
+}
+
+func loadShape(path string) (vxm.Shape, schema.ModelSet) {
+	shs := readShapes(path)
+	if len(shs) != 1 {
+		die("%s: one schema expected", path)
+	}
+	ms, err := vxm.Compile(shs[0])
+	if err != nil {
+		die("shape %d does not compile: %v\n%s", shs[0].ID, err, vxm.RenderYang(shs[0]))
+	}
+	return shs[0], ms
+}
+
+type writer struct {
+	f *os.File
+	w *bufio.Writer
+}
+
+func create(path string) *writer {
+	f, err := os.Create(path)
+	if err != nil {
+		die("%v", err)
+	}
+	return &writer{f, bufio.NewWriterSize(f, 1<<20)}
+}
+func (w *writer) put(v interface{}) {
+	b, err := json.Marshal(v)
+	if err != nil {
+		die("%v", err)
+	}
+	w.w.Write(b)
+	w.w.WriteByte('\n')
+}
+func (w *writer) close() { w.w.Flush(); w.f.Close() }
+
+// one record of the replay result: a disagreement, or (kind "finding") an oddity the code shows
+type replayRec struct {
+	Kind  string      `json:"kind"` // mismatch | finding
+	Cause string      `json:"cause,omitempty"`
+	Shape int         `json:"shape"`
+	Api   string      `json:"api"`
+	Vt    string      `json:"vt"`
+	D     []vxm.DNode `json:"d"`
+	Diff  *vxm.Diff   `json:"diff,omitempty"`
+	Text  string      `json:"text,omitempty"`
+	Want  []vxm.WErr  `json:"want"`
+	Rfc   []vxm.WErr  `json:"rfc,omitempty"`
+	Cw    []string    `json:"cw,omitempty"`
+	Got   []vxm.Err   `json:"got"`
+}
+
+func replay(args []string) {
+	fs := flag.NewFlagSet("replay", flag.ExitOnError)
+	out := fs.String("out", "res.ndjson", "mismatches and findings")
+	maxf := fs.Int("maxfindings", 3, "finding records kept per shape and cause")
+	fs.Parse(args)
+	files := fs.Args()
+	if len(files)%2 != 0 {
+		die("replay wants pairs of schema and vector files")
+	}
+	w := create(*out)
+	n, bad, withErrs, errsSeen := 0, 0, 0, 0
+	agree := map[string]int{}
+	findings := map[string]int{}
+	for i := 0; i < len(files); i += 2 {
+		sh, ms := loadShape(files[i])
+		kept := map[string]int{}
+		eachLine(files[i+1], func(b []byte) {
+			var v vxm.Vec
+			if err := json.Unmarshal(b, &v); err != nil {
+				die("%s: %v", files[i+1], err)
+			}
+			apis := []string{"sv"}
+			if v.Vt == "all" {
+				apis = append(apis, "func")
+			}
+			for _, api := range apis {
+				n++
+				if len(v.Code) > 0 {
+					withErrs++
+					errsSeen += len(v.Code)
+				}
+				o := vxm.Validate(ms, v.D, api, v.Vt)
+				vd := vxm.Judge(v, o)
+				if vd.Diff != nil {
+					bad++
+					w.put(replayRec{Kind: "mismatch", Shape: sh.ID, Api: api, Vt: v.Vt, D: v.D, Diff: vd.Diff, Text: vd.Diff.Describe(), Want: v.Code, Rfc: v.Errs, Cw: v.Cw, Got: o.Errs})
+					continue
+				}
+				agree[vd.Agree]++
+				for cause, hit := range map[string]bool{"np-when-ignored": vd.O1, "case-when-ignored": vd.O2} {
+					if !hit {
+						continue
+					}
+					findings[cause]++
+					if kept[cause] < *maxf {
+						kept[cause]++
+						w.put(replayRec{Kind: "finding", Cause: cause, Shape: sh.ID, Api: api, Vt: v.Vt, D: v.D, Want: v.Code, Rfc: v.Errs, Cw: v.Cw, Got: o.Errs})
+					}
+				}
+			}
+		})
+	}
+	w.close()
+	b, _ := json.Marshal(map[string]interface{}{"evaluations": n, "mismatches": bad, "with_errors": withErrs, "errors_prescribed": errsSeen, "agree": agree, "findings": findings})
+	fmt.Println(string(b))
+}
+
+type adapterRec struct {
+	Shape int         `json:"shape"`
+	D     []vxm.DNode `json:"d"`
+	M     vxm.AMism   `json:"m"`
+}
+
+func adapter(args []string) {
+	fs := flag.NewFlagSet("adapter", flag.ExitOnError)
+	out := fs.String("out", "resa.ndjson", "mismatches")
+	fs.Parse(args)
+	files := fs.Args()
+	if len(files)%2 != 0 {
+		die("adapter wants pairs of schema and view files")
+	}
+	w := create(*out)
+	n, nodes, bad := 0, 0, 0
+	for i := 0; i < len(files); i += 2 {
+		sh, ms := loadShape(files[i])
+		eachLine(files[i+1], func(b []byte) {
+			var v vxm.AVec
+			if err := json.Unmarshal(b, &v); err != nil {
+				die("%s: %v", files[i+1], err)
+			}
+			n++
+			ms2, k := vxm.CheckAdapter(sh, ms, v, 5)
+			nodes += k
+			for _, m := range ms2 {
+				bad++
+				w.put(adapterRec{sh.ID, v.D, m})
+			}
+		})
+	}
+	w.close()
+	fmt.Printf("{\"trees\":%d,\"nodes\":%d,\"mismatches\":%d}\n", n, nodes, bad)
+}
+
+func parseData(s string) []vxm.DNode {
+	var d []vxm.DNode
+	if err := json.Unmarshal([]byte(s), &d); err != nil {
+		die("data: %v", err)
+	}
+	return d
+}
+
+func show(ms schema.Node, d []vxm.DNode, vt string) {
+	api := "sv"
+	if vt == "func" {
+		api, vt = "func", "all"
+	}
+	o := vxm.Validate(ms, d, api, vt)
+	b, _ := json.MarshalIndent(o, "", " ")
+	fmt.Println(string(b))
+}
+
+func probe(args []string) {
+	if len(args) < 2 {
+		die("probe vxs_N.ndjson data-json [valtype]")
+	}
+	_, ms := loadShape(args[0])
+	vt := "func"
+	if len(args) > 2 {
+		vt = args[2]
+	}
+	show(ms, parseData(args[1]), vt)
 }
 
 func probeYang(args []string) {
@@ -48,19 +272,47 @@ func probeYang(args []string) {
 	if err != nil {
 		die("compile: %v", err)
 	}
-	var d []vxm.DNode
-	if err := json.Unmarshal([]byte(args[1]), &d); err != nil {
-		die("data: %v", err)
-	}
 	vt := "func"
 	if len(args) > 2 {
 		vt = args[2]
 	}
-	api := "sv"
-	if vt == "func" {
-		api = "func"
+	show(ms, parseData(args[1]), vt)
+}
+
+type xnodeRec struct {
+	Shape int         `json:"shape"`
+	At    string      `json:"at"`
+	What  string      `json:"what"`
+	Want  interface{} `json:"want"`
+	Got   interface{} `json:"got"`
+}
+
+// xnode: the schema walker of node_xpath.go (schema.NewXNode) against the schema view of the spec.
+func xnode(args []string) {
+	fs := flag.NewFlagSet("xnode", flag.ExitOnError)
+	out := fs.String("out", "resx.ndjson", "mismatches")
+	fs.Parse(args)
+	files := fs.Args()
+	if len(files)%2 != 0 {
+		die("xnode wants pairs of schema and schema-view files")
 	}
-	o := vxm.Validate(ms, d, api, vt)
-	b, _ := json.MarshalIndent(o, "", " ")
-	fmt.Println(string(b))
+	w := create(*out)
+	n, bad := 0, 0
+	for i := 0; i < len(files); i += 2 {
+		sh, ms := loadShape(files[i])
+		eachLine(files[i+1], func(b []byte) {
+			var v vxm.SView
+			if err := json.Unmarshal(b, &v); err != nil {
+				die("%s: %v", files[i+1], err)
+			}
+			ms2, k := vxm.CheckXNode(sh, ms, v)
+			n += k
+			for _, m := range ms2 {
+				bad++
+				w.put(xnodeRec{sh.ID, m.At, m.What, m.Want, m.Got})
+			}
+		})
+	}
+	w.close()
+	fmt.Printf("{\"nodes\":%d,\"mismatches\":%d}\n", n, bad)
 }
